@@ -464,6 +464,7 @@ type walker struct {
 	inLoop  int
 	ctorArg bool
 	inIf    int // > 0 inside the body of an if: a close(ch) here is a check-then-close
+	rules   *ruleState // split read-modify-write / use-after-release bookkeeping (rules.go)
 }
 
 func (w *walker) collectGo(n ast.Node, inLoop bool) {
@@ -693,6 +694,14 @@ func (w *walker) stmt(s ast.Stmt) bool {
 				w.noteFresh(id, s.Rhs[0])
 			}
 		}
+		for i, l := range s.Lhs {
+			switch {
+			case len(s.Rhs) == len(s.Lhs):
+				w.assignRules(l, s.Rhs[i])
+			case len(s.Rhs) == 1:
+				w.assignRules(l, s.Rhs[0])
+			}
+		}
 	case *ast.IncDecStmt:
 		w.write(s.X, true)
 	case *ast.GoStmt:
@@ -706,7 +715,9 @@ func (w *walker) stmt(s ast.Stmt) bool {
 
 				continue
 			}
-			if _, bare := r.(*ast.Ident); bare {
+			if id, bare := r.(*ast.Ident); bare {
+				w.useIdent(id)
+
 				continue // returning a fresh local ends this function: later statements are not "after" it
 			}
 			w.expr(r)
@@ -794,6 +805,7 @@ func (w *walker) stmt(s ast.Stmt) bool {
 						w.expr(v)
 						if i < len(vs.Names) && len(vs.Values) == len(vs.Names) {
 							w.noteFresh(vs.Names[i], v)
+							w.assignRules(vs.Names[i], v)
 						}
 					}
 				}
@@ -936,6 +948,7 @@ func (w *walker) expr(e ast.Expr) {
 	case nil:
 	case *ast.Ident:
 		w.escape(e)
+		w.useIdent(e)
 	case *ast.BasicLit:
 	case *ast.SelectorExpr:
 		sel := w.info.Selections[e]
@@ -999,6 +1012,7 @@ func (w *walker) expr(e ast.Expr) {
 func (w *walker) base(x ast.Expr) {
 	switch x := x.(type) {
 	case *ast.Ident:
+		w.useIdent(x)
 	case *ast.ParenExpr:
 		w.base(x.X)
 	case *ast.StarExpr:
@@ -1117,6 +1131,7 @@ func (w *walker) lockOp(call *ast.CallExpr, deferred bool) bool {
 			}
 		}
 		w.held = append(w.held, heldLock{owner, name, mode})
+		w.noteAcquire(owner, name)
 	case "Unlock", "RUnlock":
 		if deferred {
 			return true // held until the function returns
@@ -1145,7 +1160,9 @@ func (w *walker) deferStmt(s *ast.DeferStmt) {
 
 		return
 	}
+	w.rs().inDefer = true
 	w.call(s.Call)
+	w.rs().inDefer = false
 }
 
 func (w *walker) goStmt(s *ast.GoStmt) {
@@ -1403,10 +1420,15 @@ func (w *walker) callWith(e *ast.CallExpr, goCtx *ctx) {
 
 			continue
 		}
-		if _, bare := a.(*ast.Ident); bare {
+		if id, bare := a.(*ast.Ident); bare {
+			w.useIdent(id)
+
 			continue // passing a fresh local to a callee is not publication; static callees are followed
 		}
 		w.expr(a)
+	}
+	if isSel && goCtx == nil {
+		w.callRules(e, fs)
 	}
 	// callee
 	var callee *types.Func
@@ -1821,11 +1843,17 @@ func (w *walker) accessNamed(s *ast.SelectorExpr, pseudo, kind, note string) {
 	if a := w.sc.own.find("virtual-lock", si.name, ""); a != nil && class != classSetup {
 		a.used++
 		anns = append(anns, a.idx)
-		m := "R"
-		if kind == "write" || kind == "rmw" {
-			m = "W"
+		if p, rel := w.releasedBase(baseExpr); rel {
+			// the annotation is honoured only between Retain/creation and Release (rules.go)
+			class = classAny
+			note = fmt.Sprintf("USE AFTER RELEASE: field access after Release() at line %d", w.sc.ld.fset.Position(p).Line)
+		} else {
+			m := "R"
+			if kind == "write" || kind == "rmw" {
+				m = "W"
+			}
+			locks = append(locks, rowLock{si.name + "#owner", m})
 		}
-		locks = append(locks, rowLock{si.name + "#owner", m})
 	}
 	var before []int
 	if class >= 0 {
